@@ -23,6 +23,8 @@ CtxText == "(def x 7) (def xs (list 1 2)) (def v [3 4]) (def em ()) " \o
            "(defmacro mrec (fn [n] (if (< n 1) :done `(mrec ~(- n 1))))) " \o
            "(defmacro m5 (fn [a b] `[~b ~@(list a a) {:k ~a}])) " \o
            "(defmacro mx (fn [a] `(let [x 1] (list x ~a)))) " \o
+           "(defmacro mempty (fn [& r] ())) " \o
+           "(defmacro mcall (fn [& xs] `(~@xs))) " \o
            "(def f1 (fn [a] (list a a)))"
 CtxForms == ReadAll(CtxText)
 
@@ -34,8 +36,9 @@ GQ == Grammar(
   <<"(_1 _2 _3)", "[_1 _2 _3]">>)
 
 GM == Grammar(
-  <<"1", "x", "nil", "false", "(trace! 1)", "(trace! x)", "(trace! nil)", "xs", "(mrec 2)", "(macroexpand (mrec 2))">>,
-  <<"(m1 _1)", "(m3 _1)", "(f1 _1)", "(m4 _1)", "(mx _1)", "(macroexpand (m1 _1))", "(eval (macroexpand (m1 _1)))",
+  <<"1", "x", "nil", "false", "(trace! 1)", "(trace! x)", "(trace! nil)", "xs", "(mrec 2)", "(macroexpand (mrec 2))", "(mempty)", "(mcall)",
+    "(macroexpand (mcall))">>,
+  <<"(m1 _1)", "(m3 _1)", "(f1 _1)", "(m4 _1)", "(mx _1)", "(mempty _1)", "(mcall list _1)", "(macroexpand (m1 _1))", "(eval (macroexpand (m1 _1)))",
     "(macroexpand (m4 _1))", "(eval (macroexpand (m4 _1)))", "(or _1)", "(and _1)", "(-> _1 inc)",
     "(cond _1 :c)", "(let [m1 f1] (m1 _1))", "(macroexpand (m2 _1))", "(macroexpand (f1 _1))",
     "(let [m3 (fn [a] :local)] (macroexpand (m3 _1)))">>,
